@@ -302,6 +302,7 @@ func isClosedPrefixOf(pre, key []keyTok) (bool, string) {
 func c12(c *Ctx) {
 	p, R := c.Node(), c.R
 	R.Trust("go/types + go/ssa", "fmt.Sprintf %d renders unsigned integers in minimal decimal; hex.EncodeToString renders lowercase hex", "badger iteration: Seek+ValidForPrefix visits exactly the keys having the byte prefix")
+	loopVarRule(c, p, "C12.loopvar", pkgDB, pkgPublicRPC)
 	R.Assumption("request chain-id enums/ids are defined within 16 bits; their conversion to vaa.ChainID is listed as informational only")
 	bytesFn := must(p.Method(pkgVAA, "VAAID", "Bytes"), "vaa.(*VAAID).Bytes")
 	keyShape, err := methodShape(p, bytesFn)
@@ -358,7 +359,7 @@ func c12(c *Ctx) {
 		okVal = false
 		eachInstr(a.store, func(i ssa.Instruction) {
 			if st, ok := i.(*ssa.Store); ok {
-				if al, ok := st.Addr.(*ssa.Alloc); ok && al.Comment == "b" && facts.Term(st.Val) == "(*N/vaa.VAA).Marshal(v)#0" {
+				if al, ok := st.Addr.(*ssa.Alloc); ok && facts.LocalName(al.Parent(), al.Comment) == "b" && facts.Term(st.Val) == "(*N/vaa.VAA).Marshal(v)#0" {
 					okVal = true
 				}
 			}
